@@ -275,7 +275,14 @@ class Interp:
                 raise
         if k == "log":
             self.rt.rpc("logcall", tag=node["tag"], path=path, where="ctx")
-            ctx.logger.info(node["tag"], extra={"tag": node["tag"]})
+            level = node.get("level", "info")
+            if level == "exception":
+                try:
+                    raise ValueError("handled by the workflow")
+                except ValueError:
+                    ctx.logger.exception(node["tag"], extra={"tag": node["tag"]})
+            else:
+                getattr(ctx.logger, level)(node["tag"], extra={"tag": node["tag"]})
             return None
         if k == "gate":
             self.rt.rpc("gate", name=node["name"], path=path)
@@ -383,7 +390,17 @@ class Interp:
                        cv=lambda c: canon(c.callback_id), chain=self.next_chain(ctx))
         between = self.run_body(ctx, node.get("between") or [], path + "/~", item)
         v = self.call(path, "cb", cb.result, phase="result")
+        self._mutate(node, v, path)
         return (v, between) if between else v
+
+    @staticmethod
+    def _mutate(node, v, path):
+        """A workflow that updates the container it was handed (after the delivery was recorded)."""
+        if node.get("mutate"):
+            if isinstance(v, list):
+                v.append("mutated@" + path)
+            elif isinstance(v, dict):
+                v["mutated"] = path
 
     def do_wfcb(self, ctx, node, path):
         script = node.get("script") or [{"do": "ok"}]
@@ -411,8 +428,10 @@ class Interp:
             serdes_result=SERDES[cfgd.get("serdes_result")],
         )
         use_cfg = cfg if (cfgd or node.get("force_cfg")) else None
-        return self.call(path, "invoke", lambda: ctx.invoke(node["fn"], node.get("payload"), name=path, config=use_cfg),
-                         chain=self.next_chain(ctx))
+        v = self.call(path, "invoke", lambda: ctx.invoke(node["fn"], node.get("payload"), name=path, config=use_cfg),
+                      chain=self.next_chain(ctx))
+        self._mutate(node, v, path)
+        return v
 
     def do_wfc(self, ctx, node, path):
         checks = node.get("checks") or [{"do": "ok", "fn": "inc"}]
